@@ -323,6 +323,10 @@ func (repo *Repository) ProcessHeader(ctx context.Context, header *wire.BlockHea
 	repo.Lock()
 	defer repo.Unlock()
 
+	if !targetBitsAreValid(header.Bits) {
+		return errors.Wrapf(ErrInvalidTarget, "header 0x%08x", header.Bits)
+	}
+
 	if !repo.disableDifficulty && !header.WorkIsValid() {
 		return ErrNotEnoughWork
 	}
